@@ -71,18 +71,18 @@ func (w *recWAL) CreateSnapshot(i uint64, cs *raftpb.ConfState, d []byte) (raftp
 func isEmptyHS(h raftpb.HardState) bool { return h.Term == 0 && h.Vote == 0 && h.Commit == 0 }
 
 type c03Op struct {
-	Kind string `json:"kind"` // insert update remove snapshot
-	Id   string `json:"id,omitempty"`
+	Kind string   `json:"kind"` // insert update remove snapshot
+	Id   string   `json:"id,omitempty"`
 	Vec  []uint32 `json:"vec,omitempty"`
 }
 type c03Case struct {
-	Ops      []c03Op  `json:"ops"`
-	CrashAt  int      `json:"crash_at"`  // durable write boundary (1-based); 0 = clean stop after everything
-	Total    int      `json:"total_boundaries"`
-	Acked    []bool   `json:"acked"`
-	Writes   int      `json:"durable_writes"`
+	Ops       []c03Op     `json:"ops"`
+	CrashAt   int         `json:"crash_at"` // durable write boundary (1-based); 0 = clean stop after everything
+	Total     int         `json:"total_boundaries"`
+	Acked     []bool      `json:"acked"`
+	Writes    int         `json:"durable_writes"`
 	Recovered []stObsItem `json:"recovered"`
-	Note     string   `json:"note,omitempty"`
+	Note      string      `json:"note,omitempty"`
 }
 
 // one incarnation of a single-replica partition over a surviving Badger handle
